@@ -152,6 +152,32 @@ namespace fsh
         std::unique_ptr<FG> build_graph(std::vector<opvar>& the_ops)
         {
             auto seq = fs::make_flow_operator_sequence<impl_type>(the_ops);
+            // the sequence reaches the graph along one of three construction paths, chosen by a fixed
+            // hash of the operator list (so that a replay takes the same path): moved straight in,
+            // move-ASSIGNED into a default-constructed sequence, or move-assigned over a sequence that
+            // held other operators before (all paths must give the same graph)
+            std::size_t h = 1469598103u;
+            for (auto& op : the_ops)
+                for (char c : render_op(op))
+                    h = (h ^ static_cast<unsigned char>(c)) * 16777619u;
+            h %= 3;
+            if (h == 1)
+            {
+                fs::flow_operator_sequence<impl_type> s2;
+                s2 = std::move(seq);
+                return std::make_unique<FG>(grid, std::move(s2));
+            }
+            if (h == 2)
+            {
+                std::vector<opvar> other;
+                if (render_op(the_ops.front()).rfind("multi", 0) == 0)
+                    other.push_back(std::make_shared<fs::single_flow_router>());
+                else
+                    other.push_back(std::make_shared<fs::multi_flow_router>(1.0));
+                auto s2 = fs::make_flow_operator_sequence<impl_type>(other);
+                s2 = std::move(seq);
+                return std::make_unique<FG>(grid, std::move(s2));
+            }
             return std::make_unique<FG>(grid, std::move(seq));
         }
 
